@@ -23,7 +23,7 @@ use signalo_filters::median::exp::{Config as EmedConfig, Median as Emed};
 use signalo_filters::median::Median;
 use signalo_filters::observe::alpha_beta::{AlphaBeta, Config as AbConfig};
 use signalo_filters::observe::kalman::{Config as KalmanConfig, Kalman};
-use signalo_traits::{ConfigClone, ConfigRef, Filter, FromGuts, IntoGuts, Reset, WithConfig};
+use signalo_traits::{ConfigClone, ConfigRef, Filter, FromGuts, IntoGuts, Reset, StateMut, WithConfig};
 use std::collections::HashMap;
 
 /// instantiate `$body` with the const generic `$N` bound to the run-time width `$n`
@@ -74,8 +74,8 @@ fn arr<T: std::fmt::Debug, const N: usize>(v: Vec<T>) -> [T; N] {
 pub trait Inst {
     fn f(&mut self, a: &[Val]) -> String;
     fn acc(&self, which: &str) -> String;
-    fn guts(&self, field: &str) -> String;
-    fn cfg(&self) -> String;
+    fn guts(&mut self, field: &str) -> String;
+    fn cfg(&mut self) -> String;
     fn reset(self: Box<Self>) -> Box<dyn Inst>;
     fn clone_box(&self) -> Box<dyn Inst>;
     fn gutsrt(&self) -> Box<dyn Inst>;
@@ -89,10 +89,12 @@ pub trait FK: Clone + 'static {
     fn acc_(&self, _which: &str) -> String {
         "unsupported".to_string()
     }
-    fn guts_(&self, _field: &str) -> String {
+    /// state fields are read through `StateMut::state_mut` (a plain borrow), never through a clone, so that a
+    /// defect in `Clone` does not disturb the checks of properties that do not speak about copies
+    fn guts_(&mut self, _field: &str) -> String {
         "unsupported".to_string()
     }
-    fn cfg_(&self) -> String {
+    fn cfg_(&mut self) -> String {
         "-".to_string()
     }
 }
@@ -104,10 +106,10 @@ impl<K: FK> Inst for K {
     fn acc(&self, which: &str) -> String {
         self.acc_(which)
     }
-    fn guts(&self, field: &str) -> String {
+    fn guts(&mut self, field: &str) -> String {
         self.guts_(field)
     }
-    fn cfg(&self) -> String {
+    fn cfg(&mut self) -> String {
         self.cfg_()
     }
     fn reset(self: Box<Self>) -> Box<dyn Inst> {
@@ -174,8 +176,8 @@ median_fk!(f64);
 macro_rules! mean_fk {
     ($t:ty) => {
         fk!([const N: usize] Mean<$t, N>, $t => $t {
-            fn guts_(&self, field: &str) -> String {
-                let st = self.clone().into_guts();
+            fn guts_(&mut self, field: &str) -> String {
+                let st = unsafe { StateMut::state_mut(self) };
                 match field {
                     "mean" => st.mean.r(),
                     "taps" => render_list(st.taps.iter()),
@@ -199,8 +201,8 @@ fn render_taps(taps: &[(Q, usize)]) -> String {
 macro_rules! deque_fk {
     ($ty:ident) => {
         fk!([const N: usize] $ty<Q, N>, Q => Q {
-            fn guts_(&self, field: &str) -> String {
-                let st = self.clone().into_guts();
+            fn guts_(&mut self, field: &str) -> String {
+                let st = unsafe { StateMut::state_mut(self) };
                 match field {
                     "time" => st.time.r(),
                     "taps" => render_taps(&st.taps.iter().cloned().collect::<Vec<_>>()),
@@ -215,20 +217,20 @@ deque_fk!(Min);
 fk!([const N: usize] Bounds<Q, N>, Q => (Q, Q) {});
 
 fk!([const N: usize] Convolve<Q, N>, Q => Q {
-    fn guts_(&self, field: &str) -> String {
-        let (_, st) = self.clone().into_guts();
+    fn guts_(&mut self, field: &str) -> String {
+        let st = unsafe { StateMut::state_mut(self) };
         match field {
             "taps" => render_list(st.taps.iter()),
             _ => "unsupported".to_string(),
         }
     }
-    fn cfg_(&self) -> String {
+    fn cfg_(&mut self) -> String {
         render_list(self.config_ref().coefficients.iter())
     }
 });
 fk!([const N: usize] Delay<Q, N>, Q => Q {
-    fn guts_(&self, field: &str) -> String {
-        let st = self.clone().into_guts();
+    fn guts_(&mut self, field: &str) -> String {
+        let st = unsafe { StateMut::state_mut(self) };
         match field {
             "taps" => render_list(st.taps.iter()),
             _ => "unsupported".to_string(),
@@ -267,13 +269,13 @@ fk!([const N: usize] Delay<Tracked, N>, Tracked => Tracked {});
 // ---- stateless / scalar-state filters ---------------------------------------------------
 
 fk!([] Differentiate<Q>, Q => Q {
-    fn guts_(&self, field: &str) -> String {
-        match field { "value" => self.clone().into_guts().value.r(), _ => "unsupported".to_string() }
+    fn guts_(&mut self, field: &str) -> String {
+        match field { "value" => unsafe { StateMut::state_mut(self) }.value.r(), _ => "unsupported".to_string() }
     }
 });
 fk!([] Integrate<Q>, Q => Q {
-    fn guts_(&self, field: &str) -> String {
-        match field { "value" => self.clone().into_guts().value.r(), _ => "unsupported".to_string() }
+    fn guts_(&mut self, field: &str) -> String {
+        match field { "value" => unsafe { StateMut::state_mut(self) }.value.r(), _ => "unsupported".to_string() }
     }
 });
 
@@ -297,55 +299,55 @@ impl FK for Kalman<Q> {
     fn gutsrt_(&self) -> Self {
         FromGuts::from_guts(IntoGuts::into_guts(self.clone()))
     }
-    fn guts_(&self, field: &str) -> String {
-        let (_, st) = self.clone().into_guts();
+    fn guts_(&mut self, field: &str) -> String {
+        let st = unsafe { StateMut::state_mut(self) };
         match field {
             "cov" => st.cov.r(),
             "value" => st.value.r(),
             _ => "unsupported".to_string(),
         }
     }
-    fn cfg_(&self) -> String {
+    fn cfg_(&mut self) -> String {
         let c = self.config();
         format!("{} {} {} {} {}", c.r.r(), c.q.r(), c.a.r(), c.b.r(), c.c.r())
     }
 }
 
 fk!([] AlphaBeta<Q>, Q => Q {
-    fn guts_(&self, field: &str) -> String {
-        let (_, st) = self.clone().into_guts();
+    fn guts_(&mut self, field: &str) -> String {
+        let st = unsafe { StateMut::state_mut(self) };
         match field {
             "velocity" => st.velocity.r(),
             "value" => st.value.r(),
             _ => "unsupported".to_string(),
         }
     }
-    fn cfg_(&self) -> String {
+    fn cfg_(&mut self) -> String {
         let c = self.config();
         format!("{} {}", c.alpha.r(), c.beta.r())
     }
 });
 fk!([] Ema<Q>, Q => Q {
-    fn guts_(&self, field: &str) -> String {
-        let (_, st) = self.clone().into_guts();
+    fn guts_(&mut self, field: &str) -> String {
+        let st = unsafe { StateMut::state_mut(self) };
         match field { "mean" => st.mean.r(), _ => "unsupported".to_string() }
     }
-    fn cfg_(&self) -> String {
+    fn cfg_(&mut self) -> String {
         self.config().inverse_width.r()
     }
 });
 fk!([] Emed<Q>, Q => Q {
-    fn guts_(&self, field: &str) -> String {
-        let (_, st) = self.clone().into_guts();
+    fn guts_(&mut self, field: &str) -> String {
+        let st = unsafe { StateMut::state_mut(self) };
         match field { "median" => st.median.r(), _ => "unsupported".to_string() }
     }
-    fn cfg_(&self) -> String {
+    fn cfg_(&mut self) -> String {
         let c = self.config();
         format!("{} {} {}", c.pre.inverse_width.r(), c.mid.r(), c.post.inverse_width.r())
     }
 });
 fk!([] Emv<Q>, Q => signalo_filters::mean::exp::mean_variance::Output<Q> {
-    fn cfg_(&self) -> String {
+    fn cfg_(&mut self) -> String {
         self.config().inverse_width.r()
     }
 });
@@ -355,32 +357,32 @@ fk!([] Emv<Q>, Q => signalo_filters::mean::exp::mean_variance::Output<Q> {
 macro_rules! classify_fk {
     ($t:ty) => {
         fk!([] Threshold<$t, Q>, $t => Q {
-            fn cfg_(&self) -> String {
+            fn cfg_(&mut self) -> String {
                 let c = self.config();
                 format!("{} {}", c.threshold.r(), render_list(c.outputs.iter()))
             }
         });
         fk!([] Schmitt<$t, Q>, $t => Q {
-            fn guts_(&self, field: &str) -> String {
-                let (_, st) = self.clone().into_guts();
+            fn guts_(&mut self, field: &str) -> String {
+                let st = unsafe { StateMut::state_mut(self) };
                 match field { "on" => st.on.r(), _ => "unsupported".to_string() }
             }
-            fn cfg_(&self) -> String {
+            fn cfg_(&mut self) -> String {
                 let c = self.config();
                 format!("{} {} {}", c.thresholds[0].r(), c.thresholds[1].r(), render_list(c.outputs.iter()))
             }
         });
         fk!([] Slopes<$t, Q>, $t => Q {
-            fn guts_(&self, field: &str) -> String {
-                let (_, st) = self.clone().into_guts();
+            fn guts_(&mut self, field: &str) -> String {
+                let st = unsafe { StateMut::state_mut(self) };
                 match field { "input" => st.input.r(), _ => "unsupported".to_string() }
             }
-            fn cfg_(&self) -> String {
+            fn cfg_(&mut self) -> String {
                 render_list(self.config().outputs.iter())
             }
         });
         fk!([] Peaks<$t, Q>, $t => Q {
-            fn cfg_(&self) -> String {
+            fn cfg_(&mut self) -> String {
                 render_list(self.config().outputs.iter())
             }
         });
@@ -390,17 +392,17 @@ classify_fk!(Q);
 classify_fk!(f64);
 
 fk!([] Debounce<Q, Q>, Q => Q {
-    fn guts_(&self, field: &str) -> String {
-        let (_, st) = self.clone().into_guts();
+    fn guts_(&mut self, field: &str) -> String {
+        let st = unsafe { StateMut::state_mut(self) };
         match field { "count" => st.count.r(), _ => "unsupported".to_string() }
     }
-    fn cfg_(&self) -> String {
+    fn cfg_(&mut self) -> String {
         let c = self.config();
         format!("{} {} {}", c.threshold, c.predicate.r(), render_list(c.outputs.iter()))
     }
 });
 fk!([] Peaks<Slope, Q>, Slope => Q {
-    fn cfg_(&self) -> String {
+    fn cfg_(&mut self) -> String {
         render_list(self.config().outputs.iter())
     }
 });
@@ -434,11 +436,11 @@ where
             _ => "unsupported".to_string(),
         }
     }
-    fn guts_(&self, field: &str) -> String {
-        self.clone().into_guts().inner.guts_(field)
+    fn guts_(&mut self, field: &str) -> String {
+        { let mut g = self.clone().into_guts(); g.inner.guts_(field) }
     }
-    fn cfg_(&self) -> String {
-        self.clone().into_guts().inner.cfg_()
+    fn cfg_(&mut self) -> String {
+        { let mut g = self.clone().into_guts(); g.inner.cfg_() }
     }
 }
 
@@ -464,8 +466,8 @@ macro_rules! fk_bits {
             fn gutsrt_(&self) -> Self {
                 FromGuts::from_guts(IntoGuts::into_guts(self.clone()))
             }
-            fn cfg_(&self) -> String {
-                let $s = self;
+            fn cfg_(&mut self) -> String {
+                let $s = &*self;
                 $cfg
             }
         }
@@ -580,11 +582,11 @@ mod units {
         fn gutsrt_(&self) -> Self {
             FromGuts::from_guts(IntoGuts::into_guts(self.clone()))
         }
-        fn guts_(&self, field: &str) -> String {
-            self.clone().into_guts().inner.guts_(field)
+        fn guts_(&mut self, field: &str) -> String {
+            { let mut g = self.clone().into_guts(); g.inner.guts_(field) }
         }
-        fn cfg_(&self) -> String {
-            self.clone().into_guts().inner.cfg_()
+        fn cfg_(&mut self) -> String {
+            { let mut g = self.clone().into_guts(); g.inner.cfg_() }
         }
     }
     pub fn wrap_unit<K>(k: K) -> Box<dyn Inst>
